@@ -1,13 +1,13 @@
 import GuppyVerif.Model.EmuConfig
 import GuppyVerif.Util.Sexp
 /-! Line-protocol driver for C28.  Request: `<fixed 0|1> <n_qubits> (<op> ...)` with
-    op ::= (newsim <kind> <seed|none>) | (run i) | (derive i <d>) | (bderive i <bd>) | (build i n)
+    op ::= (newsim <kind> <seed|none>) | (newcomp <seed|none>) | (run i) | (derive i <d>) | (bderive i <bd>) | (build i n)
     bd ::= (name v|none) (builddir v|none) (verbose 0|1) (arg k v)
     d  ::= (seed v|none) (shots n) (shotoffset n) (shotincrement n) (nqubits n) (nprocesses n) (verbose 0|1)
            (timeout t|none) (progressbar 0|1) (runtime r) (errormodel e) (eventhook h) (simulator sid) statevector coinflip stabilizer
     kind ::= quest | coinflip | stim | c<k>
     Reply: the `run_shots` log, one token per run:
-    `i:kind,simseed,runtime,errormodel,eventhook,nqubits,shots,verbose,timeout,seed,offset,increment,nprocesses,progressbar,origin`
+    `i:kind,simseed,runtime,runtimeseed,errormodel,errormodelseed,eventhook,eventhookseed,nqubits,shots,verbose,timeout,seed,offset,increment,nprocesses,progressbar,origin`
     (origin = index of the build call that produced the instance's SeleneInstance, or none), then `||`, then the
     `selene_sim.build` log, one token per call: `b:name,builddir,verbose,k=v;k=v..`; or `invalid`. -/
 open GuppyVerif GuppyVerif.EmuConfig
@@ -52,6 +52,7 @@ def bderiv? : Sexp → Option BDeriv
 
 def op? : Sexp → Option Op
   | .list [.atom "newsim", k, sd] => do some (.newSim (← kind? k) (← optNat? sd))
+  | .list [.atom "newcomp", sd] => (optNat? sd).map .newComp
   | .list [.atom "run", i] => i.asNat?.map .run
   | .list [.atom "derive", i, d] => do some (.derive (← i.asNat?) (← deriv? d))
   | .list [.atom "bderive", i, d] => do some (.bderive (← i.asNat?) (← bderiv? d))
@@ -72,7 +73,7 @@ def showBuild (e : Nat × BuildArgs) : String :=
 
 def showEntry (origin : Option Nat) (e : Nat × RunArgs) : String :=
   let a := e.2
-  s!"{e.1}:{showKind a.simKind},{showOpt a.simSeed},{a.runtime},{a.errorModel},{a.eventHook},{a.nQubits}," ++
+  s!"{e.1}:{showKind a.simKind},{showOpt a.simSeed},{a.runtime},{showOpt a.runtimeSeed},{a.errorModel},{showOpt a.errorModelSeed},{a.eventHook},{showOpt a.eventHookSeed},{a.nQubits}," ++
   s!"{a.shots},{if a.verbose then 1 else 0},{showOpt a.timeout},{showOpt a.seed},{a.shotOffset},{a.shotIncrement},{a.nProcesses},{if a.progressBar then 1 else 0},{showOpt origin}"
 
 def handle (line : String) : String :=
